@@ -77,13 +77,13 @@ def run(ctx):
     )
     pool = ctx.pool
     rng = ctx.rng
-    n_ex = 5 if ctx.thorough else 4
+    n_ex = 6 if ctx.thorough else 5
     for n in range(0, n_ex + 1):
         for shape in gen.forests(n):
             spec = gen.distinct_labeling(shape, S.STRS)
             one_tree(ctx, out, spec, False, n % 2 == 0)
             out.count((repr(spec), False), n >= 3)
-    for k in range(400 if ctx.thorough else 120):
+    for k in range(4000 if ctx.thorough else 500):
         objs = k % 2 == 1
         labels = S.STRS[:4] + (S.OBJ if objs else [])
         spec = S.random_label_spec(rng, rng.randrange(2, 14), labels, False, explicit=0.3)
